@@ -37,17 +37,34 @@ class C05(Prop):
             A = g.rand_lsf(0x0005); B = g.rand_lsf(0x0005)
             lines.append("dec_new"); metas.append(None)
             # tracker mirrors the documented collection: slots since the last clear
-            for t in range(rng.randrange(8, 41)):
+            # half of the histories are built around a complete collection: a shuffled pass over all six positions of A,
+            # with repeats, out-of-range numbers and (for some) fragments of B mixed in before it completes
+            plan = []
+            if h % 2 == 0:
+                order = list(range(6)); rng.shuffle(order)
+                for n_ in order:
+                    plan.append(("A", n_))
+                    if rng.random() < 0.3:
+                        plan.append(("A", rng.choice(order)))
+                    if rng.random() < 0.15:
+                        plan.append(("A", rng.choice([6, 7])))
+                    if h % 4 == 0 and rng.random() < 0.2:
+                        plan.append(("B", rng.randrange(6)))
+            nsteps = max(len(plan), rng.randrange(8, 41))
+            for t in range(nsteps):
                 r = rng.random()
                 m = {"kind": "frag"}
-                if r < 0.70:
-                    which = rng.choice("AAB") if h % 3 else "A"
+                if t < len(plan) or r < 0.70:
+                    if t < len(plan):
+                        which, n = plan[t]
+                    else:
+                        which = rng.choice("AAB") if h % 3 else "A"
+                        n = rng.choice([0, 1, 2, 3, 4, 5]) if rng.random() < 0.9 else rng.choice([6, 7])
                     lsf = A if which == "A" else B
-                    n = rng.choice([0, 1, 2, 3, 4, 5]) if rng.random() < 0.9 else rng.choice([6, 7])
                     errs = []
                     maxw = 0
                     for _ in range(4):
-                        w = rng.choice([0, 0, 1, 2, 3, 3, 3, 4]) if rng.random() < 0.6 else 0
+                        w = rng.choice([0, 0, 1, 2, 3, 3, 3] + ([4] if t >= len(plan) else [])) if rng.random() < 0.6 else 0
                         pos = rng.sample(range(24), w)
                         if pos and rng.random() < 0.5:
                             pos[0] = 0
